@@ -308,7 +308,7 @@ class InteractionsEncoder:
         self.times       = [0,0,0,0]
         self.n           = 0
         self._constant   = sum(num_interactions)
-        self._cross_pows = OrderedDict(zip(interactions,map(OrderedDict,map(Counter,str_interactions))))
+        self._cross_pows = OrderedDict(zip(str_interactions,map(OrderedDict,map(Counter,str_interactions))))
         self._ns_max_pow = { n:int(max(p.get(n,0) for p in self._cross_pows.values())) for n in set(''.join(str_interactions)) }
 
     def encode(self, **ns_raw_values: Union[str, float, Sequence[Union[str,float]], Mapping[Union[str,int],Union[str,float]]]) -> Union[Sequence[float], Mapping[str,float]]:
